@@ -355,7 +355,7 @@ theorem credit_step {g f : Nat} {s s' : St} {e : Ev} (hw : Wf s) (hq : Queued f 
     simp only [credit]
     split
     · simp
-    · simp; split <;> omega
+    · simp
   | resumed h' =>
     simp only [step] at h
     split at h <;> try simp at h
@@ -388,7 +388,7 @@ theorem credit_step {g f : Nat} {s s' : St} {e : Ev} (hw : Wf s) (hq : Queued f 
           · subst hg
             have : h' ∉ ts := by grind
             simp [bef_of_not_mem this]
-          · simp [hg]; rw [if_neg (fun h => hg h.symm)]; omega
+          · simp [hg]
       | cons a as =>
         simp [step, next, push] at h
         obtain ⟨h1, h⟩ := h
@@ -400,7 +400,7 @@ theorem credit_step {g f : Nat} {s s' : St} {e : Ev} (hw : Wf s) (hq : Queued f 
           · subst hg
             have : h' ∉ as := by grind
             simp [bef_of_not_mem this]
-          · simp [hg]; rw [if_neg (fun h => hg h.symm)]; omega
+          · simp [hg]
         · have hft : f ∈ to := by simpa [Ne.symm hhf, h1] using hq
           have hcf : cur ≠ f := by grind
           simp [h1, Ne.symm hhf, bef, hcf]
@@ -413,9 +413,7 @@ theorem credit_step {g f : Nat} {s s' : St} {e : Ev} (hw : Wf s) (hq : Queued f 
           · have hg' : ¬ g = h' := fun h => hg h.symm
             simp [hg, hg']
             by_cases hgc : cur = g
-            · subst hgc; simp [hg]
-              have h3 : cur ∉ to := hc2
-              simp [bef_of_not_mem h3]
+            · subst hgc; simp
             · have hgc' : ¬ g = cur := fun h => hgc h.symm
               simp [hgc, hgc']
     | ending =>
@@ -433,7 +431,7 @@ theorem credit_step {g f : Nat} {s s' : St} {e : Ev} (hw : Wf s) (hq : Queued f 
           · subst hg
             have : h' ∉ ts := by grind
             simp [bef_of_not_mem this]
-          · simp [hg]; rw [if_neg (fun h => hg h.symm)]
+          · simp [hg]
       | cons a as =>
         simp [step, next] at h
         obtain ⟨h1, h⟩ := h
@@ -445,7 +443,7 @@ theorem credit_step {g f : Nat} {s s' : St} {e : Ev} (hw : Wf s) (hq : Queued f 
           · subst hg
             have : h' ∉ as := by grind
             simp [bef_of_not_mem this]
-          · simp [hg]; rw [if_neg (fun h => hg h.symm)]; omega
+          · simp [hg]
         · have hft : f ∈ to := by simpa [Ne.symm hhf, h1] using hq
           simp [h1, Ne.symm hhf]
           by_cases hg : h' = g
@@ -455,5 +453,370 @@ theorem credit_step {g f : Nat} {s s' : St} {e : Ev} (hw : Wf s) (hq : Queued f 
             simp [h2, bef_of_not_mem h3]
           · have hg' : ¬ g = h' := fun h => hg h.symm
             simp [hg, hg']
+
+/-- Along any accepted continuation without `sched` and without `switch f`:
+    `#(switch g) ≤ credit g f s`. -/
+theorem credit_run {g f : Nat} (hgf : g ≠ f) : ∀ (es : List Ev) (s s' : St), Wf s → Queued f s →
+    (sys .storeTo).runFrom s es = some s' → (∀ e ∈ es, e ≠ .switch f) →
+    (∀ e ∈ es, isSched e = false) →
+    credit g f s' + es.count (.switch g) ≤ credit g f s := by
+  intro es
+  induction es with
+  | nil =>
+    intro s s' _ _ h _ _
+    simp [Sys.runFrom] at h; subst h; simp
+  | cons e es ih =>
+    intro s s' hw hq h hne hns
+    simp only [Sys.runFrom] at h
+    cases hst : (sys .storeTo).step s e with
+    | none => simp [hst] at h
+    | some s1 =>
+      simp [hst] at h
+      have hne1 := hne e (by simp)
+      have h1 := credit_step hw hq hgf hst hne1 (hns e (by simp))
+      have hq1 := (rank_step hq hst hne1).1
+      have h2 := ih s1 s' (wf_step _ hw hst) hq1 h (fun e' he' => hne e' (by simp [he']))
+        (fun e' he' => hns e' (by simp [he']))
+      simp only [List.count_cons]
+      by_cases he : e = .switch g
+      · subst he; simp at h1 ⊢; omega
+      · simp [he] at h1 ⊢; omega
+
+/-! ### `Queued` is stable under everything but `switch f` (both variants) -/
+
+theorem queued_step (tgt : Target) {f : Nat} {s s' : St} {e : Ev} (hq : Queued f s)
+    (h : step tgt s e = some s') (hne : e ≠ .switch f) : Queued f s' := by
+  cases tgt with
+  | storeTo => exact (rank_step hq h hne).1
+  | scheduleFrom =>
+    obtain ⟨frm, to, cur, phase⟩ := s
+    simp only [Queued] at hq
+    cases e with
+    | sched g =>
+      simp only [step] at h
+      split at h <;> simp at h
+      subst h
+      simp only [Queued, push]; grind
+    | yield g =>
+      simp only [step] at h
+      split at h <;> simp at h
+      subst h; exact hq
+    | finish g =>
+      simp only [step] at h
+      split at h <;> simp at h
+      subst h; exact hq
+    | resumed g =>
+      simp only [step] at h
+      split at h <;> try simp at h
+      cases phase with
+      | running => simp at h; subst h; exact hq
+      | ending => simp at h
+      | yielding =>
+        cases frm with
+        | nil =>
+          cases to with
+          | nil => simp at hq
+          | cons t ts => simp [next] at h
+        | cons a as => simp [next] at h
+    | switch g =>
+      have hgf : g ≠ f := fun h => hne (by rw [h])
+      cases phase with
+      | running => simp [step] at h
+      | yielding =>
+        cases frm with
+        | nil =>
+          cases to with
+          | nil => simp at hq
+          | cons t ts =>
+            simp [step, next, push] at h
+            obtain ⟨h1, h⟩ := h
+            subst h1 h
+            simp only [Queued]; grind
+        | cons a as =>
+          simp [step, next, push] at h
+          obtain ⟨h1, h⟩ := h
+          subst h1 h
+          simp only [Queued]; grind
+      | ending =>
+        cases frm with
+        | nil =>
+          cases to with
+          | nil => simp at hq
+          | cons t ts =>
+            simp [step, next] at h
+            obtain ⟨h1, h⟩ := h
+            subst h1 h
+            simp only [Queued]; grind
+        | cons a as =>
+          simp [step, next] at h
+          obtain ⟨h1, h⟩ := h
+          subst h1 h
+          simp only [Queued]; grind
+
+theorem queued_run (tgt : Target) {f : Nat} : ∀ (es : List Ev) (s s' : St), Queued f s →
+    (sys tgt).runFrom s es = some s' → (∀ e ∈ es, e ≠ .switch f) → Queued f s' := by
+  intro es
+  induction es with
+  | nil => intro s s' hq h _; simp [Sys.runFrom] at h; subst h; exact hq
+  | cons e es ih =>
+    intro s s' hq h hne
+    simp only [Sys.runFrom] at h
+    cases hst : (sys tgt).step s e with
+    | none => simp [hst] at h
+    | some s1 =>
+      simp [hst] at h
+      exact ih s1 s' (queued_step tgt hq hst (hne e (by simp))) h
+        (fun e' he' => hne e' (by simp [he']))
+
+/-! ### the `scheduleFrom` variant: two fibers ping-pong, the others starve -/
+
+/-- main fiber 0 has created fibers 3, 2, 1 (in that order) -/
+def ppStart : List Ev := [.sched 3, .sched 2, .sched 1]
+
+def ppState : St := { frm := [1, 2, 3], to := [], cur := 0, phase := .running }
+
+/-- 0 yields to 1, 1 yields back to 0 -/
+def ppCycle : List Ev :=
+  [.yield 0, .switch 1, .resumed 1, .yield 1, .switch 0, .resumed 0]
+
+def pingpong : Nat → List Ev
+  | 0 => []
+  | k + 1 => ppCycle ++ pingpong k
+
+theorem ppStart_run : (sys .scheduleFrom).run ppStart = some ppState := by decide
+
+theorem ppCycle_run : (sys .scheduleFrom).runFrom ppState ppCycle = some ppState := by decide
+
+theorem pingpong_run (k : Nat) :
+    (sys .scheduleFrom).runFrom ppState (pingpong k) = some ppState := by
+  induction k with
+  | zero => rfl
+  | succ k ih => simp [pingpong, Sys.runFrom_append, ppCycle_run, ih]
+
+theorem pingpong_switches (k : Nat) : switches (pingpong k) = 2 * k := by
+  induction k with
+  | zero => rfl
+  | succ k ih =>
+    simp only [switches, pingpong, List.countP_append] at *
+    rw [ih]
+    have : List.countP isSwitch ppCycle = 2 := by decide
+    omega
+
+theorem pingpong_mem (k : Nat) : ∀ e ∈ pingpong k, e ∈ ppCycle := by
+  induction k with
+  | zero => simp [pingpong]
+  | succ k ih =>
+    intro e he
+    simp only [pingpong, List.mem_append] at he
+    cases he with
+    | inl h => exact h
+    | inr h => exact ih e h
+
+theorem ppCycle_props : ∀ e ∈ ppCycle, isSched e = false ∧ e ≠ .switch 3 := by decide
+
+/-! ### between two consecutive runs of `f` -/
+
+/-- `f` is still in the game: ready, or running and not finished. -/
+def Alive (f : Nat) (s : St) : Prop := Queued f s ∨ (s.cur = f ∧ s.phase ≠ .ending)
+
+/-- A switch makes its target the running fiber ... -/
+theorem switch_cur {tgt : Target} {g : Nat} {s s' : St} (h : step tgt s (.switch g) = some s') :
+    s'.cur = g ∧ s'.phase = .running := by
+  obtain ⟨frm, to, cur, phase⟩ := s
+  cases phase with
+  | running => simp [step] at h
+  | yielding =>
+    cases frm with
+    | nil =>
+      cases to with
+      | nil => simp [step, next] at h
+      | cons t ts =>
+        simp [step, next] at h
+        obtain ⟨h1, h⟩ := h
+        subst h1 h; cases tgt <;> simp [push]
+    | cons a as =>
+      simp [step, next] at h
+      obtain ⟨h1, h⟩ := h
+      subst h1 h; cases tgt <;> simp [push]
+  | ending =>
+    cases frm with
+    | nil =>
+      cases to with
+      | nil => simp [step, next] at h
+      | cons t ts =>
+        simp [step, next] at h
+        obtain ⟨h1, h⟩ := h
+        subst h1 h; simp
+    | cons a as =>
+      simp [step, next] at h
+      obtain ⟨h1, h⟩ := h
+      subst h1 h; simp
+
+/-- ... and that target was queued. -/
+theorem switch_queued {tgt : Target} {g : Nat} {s s' : St}
+    (h : step tgt s (.switch g) = some s') : Queued g s := by
+  obtain ⟨frm, to, cur, phase⟩ := s
+  cases phase with
+  | running => simp [step] at h
+  | yielding =>
+    cases frm with
+    | nil =>
+      cases to with
+      | nil => simp [step, next] at h
+      | cons t ts => simp [step, next] at h; simp [Queued, h.1]
+    | cons a as => simp [step, next] at h; simp [Queued, h.1]
+  | ending =>
+    cases frm with
+    | nil =>
+      cases to with
+      | nil => simp [step, next] at h
+      | cons t ts => simp [step, next] at h; simp [Queued, h.1]
+    | cons a as => simp [step, next] at h; simp [Queued, h.1]
+
+/-- Without `sched`, a fiber that finished (or never existed) does not come back. -/
+theorem dead_step {f : Nat} {s s' : St} {e : Ev} (hd : ¬ Alive f s)
+    (h : step .storeTo s e = some s') (hns : isSched e = false) : ¬ Alive f s' := by
+  obtain ⟨frm, to, cur, phase⟩ := s
+  simp only [Alive, Queued] at hd
+  cases e with
+  | sched g => simp [isSched] at hns
+  | yield g =>
+    simp only [step] at h
+    split at h <;> simp at h
+    subst h; simp only [Alive, Queued]; grind
+  | finish g =>
+    simp only [step] at h
+    split at h <;> simp at h
+    subst h; simp only [Alive, Queued]; grind
+  | resumed g =>
+    simp only [step] at h
+    split at h <;> try simp at h
+    cases phase with
+    | running => simp at h; subst h; exact hd
+    | ending => simp at h
+    | yielding =>
+      cases frm with
+      | nil =>
+        cases to with
+        | nil => simp [next] at h; subst h; simp only [Alive, Queued]; grind
+        | cons t ts => simp [next] at h
+      | cons a as => simp [next] at h
+  | switch g =>
+    cases phase with
+    | running => simp [step] at h
+    | yielding =>
+      cases frm with
+      | nil =>
+        cases to with
+        | nil => simp [step, next] at h
+        | cons t ts =>
+          simp [step, next, push] at h
+          obtain ⟨h1, h⟩ := h
+          subst h1 h; simp only [Alive, Queued]; grind
+      | cons a as =>
+        simp [step, next, push] at h
+        obtain ⟨h1, h⟩ := h
+        subst h1 h; simp only [Alive, Queued]; grind
+    | ending =>
+      cases frm with
+      | nil =>
+        cases to with
+        | nil => simp [step, next] at h
+        | cons t ts =>
+          simp [step, next] at h
+          obtain ⟨h1, h⟩ := h
+          subst h1 h; simp only [Alive, Queued]; grind
+      | cons a as =>
+        simp [step, next] at h
+        obtain ⟨h1, h⟩ := h
+        subst h1 h; simp only [Alive, Queued]; grind
+
+theorem dead_run {f : Nat} : ∀ (es : List Ev) (s s' : St), ¬ Alive f s →
+    (sys .storeTo).runFrom s es = some s' → (∀ e ∈ es, isSched e = false) → ¬ Alive f s' := by
+  intro es
+  induction es with
+  | nil => intro s s' hd h _; simp [Sys.runFrom] at h; subst h; exact hd
+  | cons e es ih =>
+    intro s s' hd h hns
+    simp only [Sys.runFrom] at h
+    cases hst : (sys .storeTo).step s e with
+    | none => simp [hst] at h
+    | some s1 =>
+      simp [hst] at h
+      exact ih s1 s' (dead_step hd hst (hns e (by simp))) h (fun e' he' => hns e' (by simp [he']))
+
+/-- `credit`, extended to the time `f` itself is running: everybody else may still get 2 turns -/
+def credit2 (g f : Nat) (s : St) : Nat := if Queued f s then credit g f s else 2
+
+theorem credit2_step {g f : Nat} {s s' : St} {e : Ev} (hw : Wf s) (ha : Alive f s)
+    (ha' : Alive f s') (hgf : g ≠ f) (h : step .storeTo s e = some s') (hne : e ≠ .switch f)
+    (hns : isSched e = false) :
+    credit2 g f s' + (if e = .switch g then 1 else 0) ≤ credit2 g f s := by
+  by_cases hq : Queued f s
+  · have hq' := queued_step .storeTo hq h hne
+    simp only [credit2, hq, hq', if_true]
+    exact credit_step hw hq hgf h hne hns
+  · have hcur : s.cur = f ∧ s.phase ≠ .ending := by
+      cases ha with
+      | inl h => exact absurd h hq
+      | inr h => exact h
+    have hw' := wf_step _ hw h
+    simp only [credit2, hq, if_false]
+    by_cases hq' : Queued f s'
+    · simp only [hq', if_true]
+      by_cases he : e = .switch g
+      · subst he
+        simp only [if_true]
+        have hc := switch_cur h
+        -- `g` is now running, `f` was just re-queued in `store_to`
+        have hg1 : g ∉ s'.frm := hc.1 ▸ hw'.cur.1
+        have hg2 : g ∉ s'.to := hc.1 ▸ hw'.cur.2
+        have hb1 := bef_of_not_mem (f := f) hg1
+        have hb2 := bef_of_not_mem (f := f) hg2
+        simp only [credit, hb1, hb2, hg1, if_false]
+        split <;> (try split) <;> omega
+      · simp only [he, if_false]
+        exact credit_le_two hw'
+    · simp only [hq', if_false]
+      by_cases he : e = .switch g
+      · subst he
+        have hc := switch_cur h
+        cases ha' with
+        | inl h => exact absurd h hq'
+        | inr h => exact absurd (hc.1.symm.trans h.1) hgf
+      · simp [he]
+
+theorem credit2_run {g f : Nat} (hgf : g ≠ f) : ∀ (es : List Ev) (s s' : St), Wf s →
+    Alive f s → (sys .storeTo).runFrom s es = some s' → Alive f s' →
+    (∀ e ∈ es, e ≠ .switch f) → (∀ e ∈ es, isSched e = false) →
+    credit2 g f s' + es.count (.switch g) ≤ credit2 g f s := by
+  intro es
+  induction es with
+  | nil =>
+    intro s s' _ _ h _ _ _
+    simp [Sys.runFrom] at h; subst h; simp
+  | cons e es ih =>
+    intro s s' hw ha h ha' hne hns
+    simp only [Sys.runFrom] at h
+    cases hst : (sys .storeTo).step s e with
+    | none => simp [hst] at h
+    | some s1 =>
+      simp [hst] at h
+      have hns' : ∀ e' ∈ es, isSched e' = false := fun e' he' => hns e' (by simp [he'])
+      have ha1 : Alive f s1 := Classical.byContradiction fun hd => dead_run es s1 s' hd h hns' ha'
+      have h1 := credit2_step hw ha ha1 hgf hst (hne e (by simp)) (hns e (by simp))
+      have h2 := ih s1 s' (wf_step _ hw hst) ha1 h ha' (fun e' he' => hne e' (by simp [he'])) hns'
+      simp only [List.count_cons]
+      by_cases he : e = .switch g
+      · subst he; simp at h1 ⊢; omega
+      · simp [he] at h1 ⊢; omega
+
+theorem runFrom_append_some {M : Sys St Ev} {s s' : St} {a b : List Ev}
+    (h : M.runFrom s (a ++ b) = some s') :
+    ∃ m, M.runFrom s a = some m ∧ M.runFrom m b = some s' := by
+  rw [Sys.runFrom_append] at h
+  cases hm : M.runFrom s a with
+  | none => simp [hm] at h
+  | some m => exact ⟨m, rfl, by simpa [hm] using h⟩
 
 end LibfiberVerif.Sched
